@@ -6,6 +6,8 @@
   Obligations/C03.lean.
 -/
 import Gzx.Proofs.OneD
+import Gzx.Proofs.UpceanWrite
+import Gzx.Proofs.OneDCodabar
 import Gzx.Properties.C10
 set_option linter.unusedSimpArgs false
 namespace Gzx.Properties.C03
@@ -613,6 +615,28 @@ theorem code128_forced_inv (f : Nat) (hf : f = 99 ∨ f = 100 ∨ f = 101) (cont
             rw [List.take_left']
             simp
 
+/-! ### Codabar -/
+
+/-- Clause "Codabar … reads back", module layer: for every table of twenty pairwise distinct 7-bit words, the module
+    pattern drawn for the alphabet indices `idx` (start, data…, stop; 7 elements narrow = 1 / wide = 2 modules and a
+    narrow gap between characters) is split back into exactly these indices and then judged by the reader's guard and
+    length rules. -/
+theorem codabar_ideal_decode_encode (T : Tables) (hT : WFCodabar T = true) (idx : List Nat)
+    (hidx : ∀ i ∈ idx, i < 20) (hne : idx ≠ []) :
+    codabarIdeal T (codabarDraw (idx.map (fun i => T.codabarEnc.getD i 0))) = codabarReadSymbols T idx :=
+  codabar_ideal_core T hT idx hidx hne
+
+/-- Clause "Codabar: digits and - $ : / . + between start/stop characters A-D (also written T N * E or in lower case;
+    A…A is added when the content has no guards) … read(write(c)) == c without the guards": for every table of twenty
+    pairwise distinct 7-bit words over the standard alphabet, every content the writer accepts (`codabarFull contents
+    = ok full`, `full` = the characters drawn incl. guards) with at least two data characters (the reader refuses
+    shorter symbols) is drawn as a module pattern that the module-level reader returns as exactly the data characters
+    between the guards. -/
+theorem codabar_read_write (T : Tables) (hT : WFCodabar T = true) (hA : T.codabarAlphabet = refTables.codabarAlphabet)
+    (contents full : List Nat) (h : codabarFull contents = .ok full) (hlen : full.length > 3) :
+    ∃ mods, codabarModules T contents = .ok mods ∧ codabarIdeal T mods = .ok ((full.drop 1).dropLast) :=
+  codabar_read_write_core T hT hA contents full h hlen
+
 /-! ### the UPC/EAN row decoder returns only verified numbers -/
 
 /-- Clause (C10) "Readers never return a symbol whose check characters do not verify", on the row-decoder model:
@@ -685,23 +709,58 @@ theorem reader_result_verifies (T : Tables) (k : EanKind) (row : List Bool) (tex
               · cases h
               · rename_i hacc; cases h; exact hacc
 
-/-! ### not proved: the faithful row decoder on rendered symbols
+/-! ### the faithful row decoder reads what the UPC/EAN writers wrote -/
 
-FULL STATEMENT (`upcean_read_write`, not proved):
-  for k ∈ {EAN-13, EAN-8, UPC-A, UPC-E}, every content c the writer accepts, every scale s ≥ 1 and quiet zones
-  leftQuiet ≥ 3·s, rightQuiet ≥ g·s + 1 (g = 3 modules of the end guard, 6 for UPC-E):
-    decodeRow T k (replicate leftQuiet false ++ scale s (modules k c) ++ replicate rightQuiet false) = ok (canonical c)
-  for every table T that is well-formed (Obligations/C03: L/G patterns pairwise distinct, widths sum to 7).
-What exists instead: the row-decoder model `decodeRow` / `multiDecodeRow` is compared with the real readers on every
-rendered row of the correspondence suite (all six geometries), `reader_result_verifies` shows it only returns verified
-numbers, C20 proves the scale invariance of the variance it uses (`pmv_scale_invariant`), and the evaluated instances
-below run the complete writer → render → row decoder pipeline inside the kernel.  Missing for the general theorem:
-the run-length lemmas for concatenated scaled patterns (`recordPattern` on `scale s (appendPattern …)`) and
-"distinct patterns have strictly positive variance" for the best-match loop. -/
+/-- Clause "EAN-13 / EAN-8 / UPC-A / UPC-E: read(write(c)) == c (with the check digit appended when the writer
+    computed it), same format", FULL on the row-decoder model, at every scale:
+    for every table `T` that is well-formed (`WFUpcEan`: ten L patterns of four positive widths summing to 7, the twenty
+    L/G patterns pairwise distinct, guards non-empty with positive widths and alternating colours, the UPC-E reader's
+    end pattern = the writer's, parity tables of pairwise distinct 6-bit words — discharged for the regenerated tables
+    of /repo in Obligations/C03.lean), every symbology `k`, every content the writer accepts (`writerContents k contents
+    = ok full`, `full` = the digit string incl. check digit), the writer draws a module pattern `mods`, and for every
+    scale `s ≥ 1` (pixels per module) and quiet zones `lq ≥ s·|start guard|` on the left, `rq > s·|end guard|` on the
+    right (start guard 3 modules; end guard 3 modules, 6 for UPC-E) the row decoder as coded — start-guard search with its
+    quiet-zone test, best-match digit decoding over exact PatternMatchVariance with both thresholds, middle / end guard
+    search, right quiet-zone test, parity decoding, checksum — returns exactly `full` (UPC-A: `full` without the "0"
+    the writer prepended).  These quiet-zone conditions are exactly what the code tests (`start - (end-start) >= 0`
+    and white; `quietEnd = end + (end-start) < size` and white), so they are necessary as well. -/
+theorem upcean_read_write (T : Tables) (hT : WFUpcEan T = true) (k : EanKind) (contents full : List Nat)
+    (hw : writerContents k contents = .ok full) :
+    ∃ mods, upceanModules T k contents = .ok mods ∧
+      ∀ (lq s rq : Nat), 1 ≤ s → lq ≥ s * OneD.sumL T.startEnd → rq > s * OneD.sumL (endGuardOf T k) →
+        decodeRow T k (paddedRow lq s rq mods) = .ok (upceanCanonical k full) :=
+  upcean_read_write_core T hT k contents full hw
+
+/-- the same through the writer's own rendering (`onedWriter_renderResult`, one pixel row): at EVERY requested width
+    the rendered row is read back, provided the margin (in modules) is at least twice the start guard and more than
+    twice the end guard — 7 for EAN-13 / EAN-8 / UPC-A (their default margin is 9), 13 for UPC-E (default 9: the
+    known finding, see the counterexample below). -/
+theorem upcean_read_write_rendered (T : Tables) (hT : WFUpcEan T = true) (k : EanKind) (contents full : List Nat)
+    (hw : writerContents k contents = .ok full) (width margin : Nat)
+    (hm1 : margin ≥ 2 * OneD.sumL T.startEnd) (hm2 : margin ≥ 2 * OneD.sumL (endGuardOf T k) + 1) :
+    ∃ mods row, upceanModules T k contents = .ok mods ∧ renderRow mods width margin = .ok row ∧
+      decodeRow T k row = .ok (upceanCanonical k full) :=
+  upcean_rendered_core T hT k contents full hw width margin hm1 hm2
+
+/-- the right quiet-zone hypothesis cannot be weakened: with `rq = s·|end guard|` the same row is refused
+    (EAN-8 "12345670", scale 1, 3 white pixels on the right) -/
+theorem upcean_right_quiet_zone_needed :
+    (ean8Modules refTables (digitBytes [1, 2, 3, 4, 5, 6, 7])).bind
+      (fun m => decodeRow refTables .ean8 (paddedRow 3 1 3 m)) = .error .notFound := by decide +kernel
 
 /-! ### non-vacuity and evaluated end-to-end instances -/
 example : WF128 refTables.code128 = true := by decide +kernel
+example : WFUpcEan refTables = true := by decide +kernel
+example : OneD.sumL refTables.startEnd = 3 ∧ OneD.sumL (endGuardOf refTables .ean13) = 3 ∧ OneD.sumL (endGuardOf refTables .upce) = 6 := by decide
+example : writerContents .ean13 (digitBytes [4, 0, 0, 6, 3, 8, 1, 3, 3, 3, 9, 3]) = .ok (digitBytes [4, 0, 0, 6, 3, 8, 1, 3, 3, 3, 9, 3, 1]) := by decide
+example : writerContents .upce (digitBytes [0, 1, 2, 3, 4, 5, 6]) = .ok (digitBytes [0, 1, 2, 3, 4, 5, 6, 5]) := by decide
+/-- an instance of `upcean_read_write` run by the kernel: EAN-8 at 3 px/module, quiet zones 9 and 10 -/
+example : (ean8Modules refTables (digitBytes [1, 2, 3, 4, 5, 6, 7])).bind
+    (fun m => decodeRow refTables .ean8 (paddedRow 9 3 10 m)) = .ok (digitBytes [1, 2, 3, 4, 5, 6, 7, 0]) := by decide +kernel
 example : WFITF refTables = true := by decide
+example : WFCodabar refTables = true := by decide
+example : codabarFull (bytesOf "12-34") = .ok (bytesOf "A12-34A") ∧ codabarFull (bytesOf "t12*") = .ok (bytesOf "t12*") := by decide
+example : (codabarModules refTables (bytesOf "t12*")).bind (codabarIdeal refTables) = .ok (bytesOf "12") := by decide +kernel
 example : code128Codes [65, 49, 50, 51, 52, 97] none = .ok [104, 33, 99, 12, 34, 100, 65, 58, 106] := by decide +kernel
 example : code128ReadCodes [104, 33, 99, 12, 34, 100, 65, 58, 106] = .ok [65, 49, 50, 51, 52, 97] := by decide +kernel
 example : code39Symbols refTables [65, 97] = .ok [10, 41, 10] := by decide
